@@ -14,6 +14,7 @@ import (
 	"math"
 	"math/big"
 	"os"
+	"runtime"
 	"sort"
 	"sync"
 	"sync/atomic"
@@ -216,7 +217,12 @@ func run(c caseSpec, keep func(remedy int, group string) bool) (map[int][]verdic
 				go func(j int) {
 					defer wg.Done()
 					ready.Add(1)
-					for ready.Load() < n { // spin barrier: all callers enter together
+					// barrier: all callers enter together (bounded spin, then yield, so
+					// that an oversubscribed machine does not burn its time slices here)
+					for spins := 0; ready.Load() < n; spins++ {
+						if spins > 20000 {
+							runtime.Gosched()
+						}
 					}
 					res[j] = decodeAction(h.plugin.OnRequest(reqs[j], sc))
 				}(j)
